@@ -101,6 +101,33 @@ func cmdC08(args []string) error {
 			old.Files[p] = randBytes(rng, sz)
 			oldPaths = append(oldPaths, p)
 		}
+		// old builds in which a block-aligned 64 KiB chunk occurs more than once (several signature entries share one
+		// weak hash): X Y X inside a file, a small file that starts with the first block of a bigger one, a chunk
+		// (padding / separator) alternating with other data
+		if k%4 == 2 {
+			chunk := randBytes(rng, BS)
+			switch (k / 4) % 3 {
+			case 0:
+				c := append(append(append([]byte{}, chunk...), randBytes(rng, BS)...), chunk...)
+				c = append(c, randBytes(rng, 2*BS+rng.Intn(BS))...)
+				old.Files["old/xyx.bin"] = c
+				oldPaths = append(oldPaths, "old/xyx.bin")
+			case 1:
+				big := append(append([]byte{}, chunk...), randBytes(rng, 4*BS+rng.Intn(BS))...)
+				old.Files["old/a-big.bin"] = big
+				old.Files["old/z-small.bin"] = append(append([]byte{}, chunk...), randBytes(rng, rng.Intn(BS))...)
+				oldPaths = append(oldPaths, "old/a-big.bin", "old/z-small.bin")
+			case 2:
+				var c []byte
+				for i := 0; i < 5; i++ {
+					c = append(c, chunk...)
+					c = append(c, randBytes(rng, BS)...)
+				}
+				c = append(c, randBytes(rng, rng.Intn(BS))...)
+				old.Files["old/periodic.bin"] = c
+				oldPaths = append(oldPaths, "old/periodic.bin")
+			}
+		}
 		desc := ""
 		nn := 0
 		add := func(path, from string, content []byte, kk int, intro int64, script string) {
@@ -138,7 +165,7 @@ func cmdC08(args []string) error {
 			add("new/brand.bin", "", c, 0, int64(len(c)), "brand-new")
 			desc += "brand-new,"
 		}
-		identical := k%8 == 7
+		identical := k%8 == 7 || k%8 == 2
 		if identical {
 			new = old.clone()
 			meta = map[string]*c08File{}
